@@ -245,6 +245,9 @@ pub fn record(kv: &Kv, out: &mut Out) {
             0 | 1 => {
                 // growable BitBuffer
                 let mut b = BitBuffer::default();
+                // the read position of a BitBuffer is not observable: the recorder follows it (a successful read of n bits
+                // advances it by n) to choose a window for with_max_read that lies inside the written bits
+                let mut rp = 0usize;
                 out.line(&json!({"op": "new", "be": "buf", "bytes": [], "wpos": 0, "rpos": 0, "vis": 0}));
                 for _ in 0..ops {
                     let snap = |b: &BitBuffer| (b.bit_len(), b.content().to_vec());
@@ -253,6 +256,7 @@ pub fn record(kv: &Kv, out: &mut Out) {
                             let (var, src, so, n) = pick_copy(&mut rng, 8);
                             if b.bit_len() + n > 8 * max_bytes {
                                 b.clear();
+                                rp = 0;
                                 let (len, bytes) = snap(&b);
                                 out.line(&json!({"op": "clr", "len": len, "bytes": bytes}));
                                 continue;
@@ -295,23 +299,71 @@ pub fn record(kv: &Kv, out: &mut Out) {
                             out.line(&json!({"op": "pw", "pos": pos, "var": var, "src": src, "so": so, "n": n, "res": res, "len": len, "bytes": bytes}));
                         }
                         67..=74 => match b.read_bit() {
-                            Ok(bit) => out.line(&json!({"op": "rb", "res": "ok", "bit": bit as u8})),
+                            Ok(bit) => {
+                                rp += 1;
+                                out.line(&json!({"op": "rb", "res": "ok", "bit": bit as u8}))
+                            }
                             Err(_) => out.line(&json!({"op": "rb", "res": "err", "bit": 0})),
                         },
                         75..=94 => {
                             let (var, dst, dp, n) = pick_copy(&mut rng, 8);
                             let mut d = dst.clone();
                             let res = do_read(&mut b, var, &mut d, dp, n);
+                            if res == "ok" {
+                                rp += n;
+                            }
                             out.line(&json!({"op": "r", "var": var, "dst": dst, "dp": dp, "n": n, "res": res, "out": d}));
                         }
-                        95..=97 => {
+                        95..=96 => {
+                            rp = 0;
                             b.reset_read_position();
                             out.line(&json!({"op": "rr"}));
                         }
+                        97 => {
+                            // a read at another position: the read cursor comes back
+                            if b.bit_len() == 0 {
+                                continue;
+                            }
+                            let pos = rng.gen_range(0..b.bit_len());
+                            let (var, dst, dp, n) = pick_copy(&mut rng, 8);
+                            let d = std::cell::RefCell::new(dst.clone());
+                            let res = b.with_read_position_at(pos, |b| do_read(b, var, &mut d.borrow_mut(), dp, n));
+                            out.line(&json!({"op": "rp", "pos": pos, "var": var, "dst": dst, "dp": dp, "n": n, "res": res, "out": d.into_inner(), "len": b.bit_len()}));
+                        }
+                        98 => {
+                            // a read through a window of max bits (what a reader of an open type does)
+                            let left = b.bit_len().saturating_sub(rp);
+                            let max = rng.gen_range(0..=left);
+                            let (var, dst, dp, n) = pick_copy(&mut rng, 8);
+                            let d = std::cell::RefCell::new(dst.clone());
+                            let res = b.with_max_read(max, |b| do_read(b, var, &mut d.borrow_mut(), dp, n));
+                            if res == "ok" {
+                                rp += n;
+                            }
+                            out.line(&json!({"op": "mr", "max": max, "var": var, "dst": dst, "dp": dp, "n": n, "res": res, "out": d.into_inner(), "len": b.bit_len()}));
+                        }
                         _ => {
-                            b.clear();
-                            let (len, bytes) = snap(&b);
-                            out.line(&json!({"op": "clr", "len": len, "bytes": bytes}));
+                            if rng.gen_bool(0.5) {
+                                b.clear();
+                                rp = 0;
+                                let (len, bytes) = snap(&b);
+                                out.line(&json!({"op": "clr", "len": len, "bytes": bytes}));
+                            } else {
+                                // a buffer built from received bits (exact length, zero padding), write and read cursor given
+                                let bits = rng.gen_range(0..=8 * max_bytes.min(6));
+                                let mut bytes = rand_bytes(&mut rng, (bits + 7) / 8);
+                                if bits % 8 != 0 {
+                                    let last = bytes.len() - 1;
+                                    bytes[last] &= 0xFFu8 << (8 - bits % 8);
+                                }
+                                rp = if rng.gen_bool(0.5) { 0 } else { rng.gen_range(0..=bits) };
+                                b = match rng.gen_range(0..3) {
+                                    0 if rp == 0 && bits % 8 == 0 => BitBuffer::from_bytes(bytes.clone()),
+                                    1 if rp == 0 => BitBuffer::from_bits(bytes.clone(), bits),
+                                    _ => BitBuffer::from_bits_with_position(bytes.clone(), bits, rp),
+                                };
+                                out.line(&json!({"op": "new", "be": "buf", "bytes": bytes, "wpos": bits, "rpos": rp, "vis": 0}));
+                            }
                         }
                     }
                 }
@@ -350,7 +402,18 @@ pub fn record(kv: &Kv, out: &mut Out) {
                     let mut b = Bits::from((&buf[..], vis));
                     out.line(&json!({"op": "new", "be": "bits", "bytes": buf, "wpos": 0, "rpos": 0, "vis": vis}));
                     for _ in 0..ops {
-                        if rng.gen_bool(0.3) {
+                        let what = rng.gen_range(0..100);
+                        if what < 12 {
+                            // the scoped reader interface: move the cursor (clamped to the declared length) ...
+                            let arg = if rng.gen_bool(0.8) { rng.gen_range(0..=8 * len) } else { 8 * len + rng.gen_range(1..40) };
+                            let ret = b.set_pos(arg);
+                            out.line(&json!({"op": "sp", "arg": arg, "ret": ret}));
+                        } else if what < 20 {
+                            // ... and declare another length (clamped to the octets that are there), never in front of the cursor
+                            let arg = if rng.gen_bool(0.8) { rng.gen_range(b.pos()..=8 * len) } else { 8 * len + rng.gen_range(1..40) };
+                            let ret = b.set_len(arg);
+                            out.line(&json!({"op": "sl", "arg": arg, "ret": ret}));
+                        } else if what < 44 {
                             match b.read_bit() {
                                 Ok(bit) => out.line(&json!({"op": "rb", "res": "ok", "bit": bit as u8})),
                                 Err(_) => out.line(&json!({"op": "rb", "res": "err", "bit": 0})),
@@ -362,6 +425,7 @@ pub fn record(kv: &Kv, out: &mut Out) {
                             out.line(&json!({"op": "r", "var": var, "dst": dst, "dp": dp, "n": n, "res": res, "out": d}));
                         }
                         out.line(&json!({"op": "pos", "pos": b.pos()}));
+                        out.line(&json!({"op": "obs", "len": ScopedBitRead::len(&b), "rem": b.remaining()}));
                     }
                 } else {
                     let mut pos = rng.gen_range(0..=8 * len);
